@@ -21,6 +21,15 @@ pub const MODE_ANY_ACTION: u8 = 6;
 pub fn set_mode(m: u8) {
     unsafe { REPLAY_MODE = m };
 }
+/// machine family (S, K) of the running L1 harness: selects which instance of the reference the
+/// native replay hooks call
+pub static mut REPLAY_FAMILY: u8 = 21;
+pub fn set_family(f: u8) {
+    unsafe { REPLAY_FAMILY = f };
+}
+pub fn family() -> u8 {
+    unsafe { REPLAY_FAMILY }
+}
 pub fn mode() -> u8 {
     unsafe { REPLAY_MODE }
 }
